@@ -140,7 +140,11 @@ def env_for(variant: str, pkg: Path) -> dict[str, str]:
     if variant == 'asan':
         libasan = subprocess.run(['g++', '-print-file-name=libasan.so'], capture_output=True,
                                  text=True, check=True).stdout.strip()
-        env['LD_PRELOAD'] = libasan
+        # libstdc++ must be loaded together with the ASan runtime: the python binary does not link
+        # it, and ASan's __cxa_throw interceptor resolves the real symbol at start-up
+        libstdcxx = subprocess.run(['g++', '-print-file-name=libstdc++.so'], capture_output=True,
+                                   text=True, check=True).stdout.strip()
+        env['LD_PRELOAD'] = f'{libasan}:{libstdcxx}'
         env['ASAN_OPTIONS'] = 'detect_leaks=0:abort_on_error=1:allocator_may_return_null=1:handle_segv=1'
         env['UBSAN_OPTIONS'] = 'print_stacktrace=1:halt_on_error=1'
         env['PYTHONMALLOC'] = 'malloc'
